@@ -11,15 +11,15 @@ func {{ .ResponseEncoder }}(encoder func(context.Context, http.ResponseWriter) g
 			res, _ := v.({{ .Result.Ref }})
 		{{- end }}
 		{{- range .Result.Responses }}
-			{{- if .ContentType }}
-				ctx = context.WithValue(ctx, goahttp.ContentTypeKey, "{{ .ContentType }}")
-			{{- end }}
 			{{- if .TagName }}
 				{{- if .TagPointer }}
 					if res.{{ if .ViewedResult }}Projected.{{ end }}{{ .TagName }} != nil && *res.{{ if .ViewedResult }}Projected.{{ end }}{{ .TagName }} == {{ printf "%q" .TagValue }} {
 				{{- else }}
 					if {{ if .ViewedResult }}*{{ end }}res.{{ if .ViewedResult }}Projected.{{ end }}{{ .TagName }} == {{ printf "%q" .TagValue }} {
 				{{- end }}
+			{{- end }}
+			{{- if .ContentType }}
+				ctx = context.WithValue(ctx, goahttp.ContentTypeKey, "{{ .ContentType }}")
 			{{- end -}}
 			{{ template "partial_response" . }}
 			{{- if .ServerBody }}
